@@ -1,82 +1,163 @@
 """Faults: a FaultSchedule (CrashNode with / without restart, PauseNode, NetworkPartition symmetric / asymmetric,
-InjectLatency, InjectPacketLoss, ReduceCapacity, RandomPartition, cancelled handles, deliberately overlapping
-windows of the same kind on the same target) applied to a small pipeline
+InjectLatency, InjectPacketLoss, ReduceCapacity, RandomPartition (several at once), cancelled handles — before the
+run and in the middle of it —, deliberately overlapping windows of the same kind on the same target, zero-length
+and inverted windows, windows that start at 0 or end after the end of the run) applied to a small pipeline
     Sources → client-i → Network(link) → app-j (holds a unit of Resource "cpu" while working)
             → Network(link) → collector (Sink), and a fraction → library Server "qsrv" → Sink "done".
-Crash / pause windows hit the harness nodes, the library Server and a client; network faults hit the links that
-carry the traffic; ReduceCapacity hits the shared Resource while grants are outstanding.  Usage follows
-/repo/tests/integration/network/test_fault_injection.py (names resolved through the Simulation's entities)."""
+Crash / pause windows hit the harness nodes, the library Server, the sinks, a client, a Source, the Network entity
+and the Resource; network faults hit the links that carry the traffic — on the network chosen by `network_name`
+(explicit, or None = "first found" with a second Network "net2" of the same topology registered before or after
+"net"); ReduceCapacity (factor below, at and above 1) hits the shared Resource while grants are outstanding.
+All window boundaries are drawn from the boundary palette `dur_ms` (values that lose a nanosecond in
+`Instant.from_seconds`, 1-4 decimal digits, absolute times above 1 s).  Load regimes: light, sustained overload of
+the cpu Resource / the bounded or unbounded Server queue, bursts of same-instant requests.
+Usage follows /repo/tests/integration/network/test_fault_injection.py (names resolved through the Simulation's
+entities)."""
 from __future__ import annotations
 
-from hv.scenarios.base import T, dataclass_stats, seed_all, stats_of, sub_seed
+from hv.scenarios.base import T, dataclass_stats, dur_ms, seed_all, stats_of, sub_seed
 
 NAME = "faults"
 MODEL = "C06"
 COMPONENTS = ["FaultSchedule", "CrashNode", "PauseNode", "NetworkPartition", "InjectLatency", "InjectPacketLoss",
               "ReduceCapacity", "RandomPartition", "FaultHandle", "Network", "NetworkLink", "Resource", "Server",
-              "Sink", "Source"]
+              "Sink", "Source", "ConstantLatency", "ExponentialLatency"]
 
 KINDS = ["crash", "crash_forever", "pause", "partition", "latency", "loss", "capacity"]
+REGIMES = ["light", "light", "overload", "burst"]
+
+
+def _r3(x):
+    """JSON-exact ms value with at most 3 decimals (int when whole)"""
+    x = round(float(x), 3)
+    return int(x) if x.is_integer() else x
 
 
 def _window(rng, end_ms):
-    a = rng.randrange(200, end_ms - 600, 10)
-    b = a + rng.randrange(50, 900, 10)
-    return a, min(b, end_ms - 100)
+    """[a, b] in ms from the boundary palette.  Mostly a < b inside the run; sometimes a = 0, a zero-length window
+    (a == b), an inverted one (b < a: the "end" event fires first), or a window that is still open at end_time."""
+    a = dur_ms(rng, 0, end_ms - 100, zero=True)
+    r = rng.random()
+    if r < 0.07:
+        b = a                                             # start and end at the same instant
+    elif r < 0.12:
+        b = dur_ms(rng, 0, max(1, a))                      # inverted / degenerate
+    elif r < 0.22:
+        b = dur_ms(rng, end_ms - 50, end_ms + 1500)        # ends at / after end_time
+    elif r < 0.45:
+        b = dur_ms(rng, a, a + 60)                         # very short
+    else:
+        b = dur_ms(rng, a, min(a + 2500, end_ms + 500))
+    return _r3(a), _r3(b)
 
 
 def gen_cfg(rng):
-    end = rng.choice([3.0, 4.0, 5.0])
+    end = rng.choice([3.0, 4.0, 5.0]) if rng.random() > 0.12 else rng.choice([8.0, 10.0])
     end_ms = int(end * 1000)
-    n_clients = rng.randint(2, 3)
-    n_apps = rng.randint(1, 2)
+    n_clients = rng.choice([1, 2, 2, 3, 3, 4])
+    n_apps = rng.randint(1, 3)
     clients = [f"client-{i}" for i in range(n_clients)]
     apps = [f"app-{j}" for j in range(n_apps)]
     nodes = clients + apps + ["collector"]
-    links = [[c, a] for c in clients for a in apps] + [[a, "collector"] for a in apps]
-    faults = []
-    for _ in range(rng.randint(3, 8)):
-        kind = rng.choice(KINDS)
+    links = [[c, a] for c in clients for a in apps] + [[a, "collector"] for a in apps] + \
+            [["collector", a] for a in apps]
+    net2 = rng.random() < 0.45
+    nets = [None, "net"] + (["net2", "net2"] if net2 else [])
+    regime = rng.choice(REGIMES)
+    cpu = rng.choice([1, 1, 2, 3, 4, 4, 6, 8]) if regime != "overload" else rng.choice([1, 1, 2])
+    victims = apps + apps + ["qsrv", "qsrv", clients[0], "collector", "done", "net", "cpu", f"src-{clients[-1]}"]
+
+    def one_fault(kind):
         a, b = _window(rng, end_ms)
         if kind in ("crash", "crash_forever", "pause"):
-            f = {"kind": kind, "entity": rng.choice(apps + apps + ["qsrv", clients[0], "collector"]), "a": a, "b": b}
+            f = {"kind": kind, "entity": rng.choice(victims), "a": a, "b": b}
         elif kind == "partition":
             k = rng.randint(1, len(nodes) - 1)
             shuffled = rng.sample(nodes, len(nodes))
             f = {"kind": kind, "ga": shuffled[:k], "gb": shuffled[k:], "asym": rng.random() < 0.4, "a": a, "b": b}
+            if rng.random() < 0.15:                        # groups that overlap (a node on both sides)
+                f["gb"] = f["gb"] + f["ga"][:1]
         elif kind == "latency":
-            f = {"kind": kind, "link": rng.choice(links), "extra_ms": rng.choice([5, 20, 100, 400]), "a": a, "b": b}
+            f = {"kind": kind, "link": rng.choice(links),
+                 "extra_ms": rng.choice([0, 0.5, 5, 20, 57.3, 100, 400, 1001, 2050]), "a": a, "b": b}
         elif kind == "loss":
-            f = {"kind": kind, "link": rng.choice(links), "rate_pct": rng.choice([10, 50, 90, 100]), "a": a, "b": b}
+            f = {"kind": kind, "link": rng.choice(links), "rate_pct": rng.choice([0, 1, 10, 50, 90, 100]),
+                 "a": a, "b": b}
         else:
-            f = {"kind": kind, "factor_pct": rng.choice([25, 50, 75, 75]), "a": a, "b": b}
-        f["cancel"] = rng.random() < 0.15
+            # dyadic factors keep capacity arithmetic exact; 10 / 99 (rare) give fractional capacities, where
+            # Resource._do_release's `available + amount > capacity` can fail by float rounding (reported)
+            # (the library exception is /tmp/orch/found/faults-reducecapacity-float-release.py: 8 * 0.3 already does it)
+            pal = [25, 50, 50, 75, 75, 100, 150, 300, 12.5]
+            f = {"kind": kind, "factor_pct": rng.choice(pal if rng.random() < 0.93 else [1, 10, 99, 90, 70, 30]),
+                 "a": a, "b": b}
+        if kind in ("partition", "latency", "loss"):
+            f["net"] = rng.choice(nets)
+        f["cancel"] = rng.random() < 0.12
+        # cancelled in the middle of the run (possibly between activation and deactivation)
+        f["cancel_at"] = _r3(dur_ms(rng, 0, end_ms, zero=True)) if rng.random() < 0.12 else None
+        return f
+
+    faults = []
+    # mostly one fault of EVERY kind in the same run (plus random extras); sometimes only a few random kinds
+    all_kinds = rng.random() < 0.6
+    kinds = (rng.sample(KINDS, len(KINDS)) if all_kinds else []) + \
+            [rng.choice(KINDS) for _ in range(rng.randint(0, 3) if all_kinds else rng.randint(3, 9))]
+    for kind in kinds:
+        f = one_fault(kind)
         faults.append(f)
         if rng.random() < 0.4:
-            # a second window of the same fault overlapping the first one
-            g = dict(f)
-            g["a"] = min(end_ms - 150, f["a"] + rng.randrange(10, 200, 10))
-            g["b"] = min(end_ms - 100, max(g["a"] + 20, f["b"] + rng.randrange(-100, 300, 10)))
-            g["cancel"] = False
-            if kind == "capacity":
-                g["factor_pct"] = rng.choice([50, 75])
-            faults.append(g)
+            # a second (sometimes third) window of the same fault overlapping the first one
+            for _ in range(rng.choice([1, 1, 2])):
+                g = dict(f)
+                g["a"] = _r3(dur_ms(rng, f["a"], max(f["a"], f["b"]) + 50))
+                g["b"] = _r3(dur_ms(rng, g["a"], max(g["a"], f["b"]) + 400))
+                g["cancel"] = False
+                g["cancel_at"] = None
+                if kind == "capacity":
+                    g["factor_pct"] = rng.choice([50, 75, 200])
+                faults.append(g)
+
+    if regime == "light":
+        rate = [rng.choice([10, 20, 40, 80]) for _ in range(n_clients)]
+        burst = 1
+        svc = dur_ms(rng, 5, 60)
+    elif regime == "overload":   # arrival rate well above what cpu / qsrv can serve, for the whole run
+        rate = [rng.choice([100, 200, 300]) for _ in range(n_clients)]
+        burst = 1
+        svc = dur_ms(rng, 40, 250)
+    else:                        # few ticks, many same-instant requests per tick
+        burst = rng.choice([5, 12, 30])
+        rate = [rng.choice([2, 5, 10] if burst < 30 else [2, 5]) for _ in range(n_clients)]
+        svc = dur_ms(rng, 1, 80, zero=True)
+    if end > 6:
+        rate = [max(2, r // 3) for r in rate]
     return {
         "end": end,
         "n_clients": n_clients,
         "n_apps": n_apps,
-        "rate": [rng.choice([10, 20, 40]) for _ in range(n_clients)],
+        "regime": regime,
+        "rate": rate,
+        "burst": burst,
         "poisson": rng.random() < 0.5,
-        "link_ms": rng.randint(1, 20),
-        "link_loss_pct": rng.choice([0, 0, 5]),
+        "link_ms": dur_ms(rng, 0.2, 40, zero=True),
+        "link_kind": rng.choice(["const", "const", "exp"]),
+        "link_loss_pct": rng.choice([0, 0, 0, 5, 50, 100]),
         "default_link": rng.random() < 0.3,
-        "svc_ms": rng.randint(5, 60),
-        "cpu": rng.choice([1, 2, 3, 4, 4, 6, 8]),
-        "q_every": rng.randint(2, 5),
-        "qsrv": {"conc": rng.randint(1, 2), "svc_ms": rng.randint(5, 40), "qcap": rng.choice([None, 3, 10])},
+        "svc_ms": svc,
+        "cpu": cpu,
+        "q_every": rng.randint(1, 5),
+        "qsrv": {"conc": rng.randint(1, 3), "svc_ms": dur_ms(rng, 1, 120, zero=True),
+                 "qcap": rng.choice([None, None, 0, 1, 3, 10])},
         "faults": faults,
-        "random_partition": ({"mtbf_ms": rng.choice([200, 500]), "mttr_ms": rng.choice([50, 200])}
-                             if rng.random() < 0.3 else None),
+        "random_partition": None,
+        "random_partitions": [{"mtbf_ms": dur_ms(rng, 20, 1500), "mttr_ms": dur_ms(rng, 5, 1500),
+                               "n_nodes": rng.randint(2, len(nodes)), "net": rng.choice(nets)}
+                              for _ in range(rng.choice([0, 0, 0, 1, 1, 2]))],
+        "net2": net2,
+        "net2_first": rng.random() < 0.5,
+        "net2_every": rng.randint(2, 4),
+        "stop_ms": _r3(dur_ms(rng, end_ms - 1200, end_ms + 200)),
+        "cancel_after_build": rng.random() < 0.7,
     }
 
 
@@ -90,7 +171,7 @@ def build(cfg, seed):
     from happysimulator.core.event import Event
     from happysimulator.core.simulation import Simulation
     from happysimulator.core.temporal import Instant
-    from happysimulator.distributions import ConstantLatency
+    from happysimulator.distributions import ConstantLatency, ExponentialLatency
     from happysimulator.faults import (
         CrashNode, FaultSchedule, InjectLatency, InjectPacketLoss, NetworkPartition, PauseNode, RandomPartition,
         ReduceCapacity,
@@ -99,7 +180,9 @@ def build(cfg, seed):
 
     seed_all(seed)
     end = cfg["end"]
-    stop = end - 0.5
+    stop = cfg["stop_ms"] / 1000.0 if "stop_ms" in cfg else end - 0.5
+    burst = cfg.get("burst", 1)
+    use_net2 = cfg.get("net2", False)
 
     collector = Sink("collector")
     done = Sink("done")
@@ -109,10 +192,13 @@ def build(cfg, seed):
                   queue_capacity=q["qcap"], downstream=done)
 
     def link(name):
-        return NetworkLink(name=name, latency=ConstantLatency(cfg["link_ms"] / 1000.0),
-                           packet_loss_rate=cfg["link_loss_pct"] / 100.0)
+        lat = cfg["link_ms"] / 1000.0
+        dist = ExponentialLatency(lat) if cfg.get("link_kind", "const") == "exp" and lat > 0 else ConstantLatency(lat)
+        return NetworkLink(name=name, latency=dist, packet_loss_rate=cfg["link_loss_pct"] / 100.0)
 
     network = Network(name="net", default_link=link("default") if cfg["default_link"] else None)
+    net2 = Network(name="net2") if use_net2 else None
+    nets = {"net": network, "net2": net2}
 
     class App(Entity):
         """takes a cpu unit, works, forwards the request over the network to the collector (and every
@@ -120,15 +206,19 @@ def build(cfg, seed):
 
         def __init__(self, name):
             super().__init__(name)
-            self.received = self.finished = 0
+            self.received = self.finished = self.refused = 0
 
         def handle_event(self, event):
             self.received += 1
+            if cpu.capacity < 1:      # a ReduceCapacity window left less than one unit: acquire(1) would be rejected
+                self.refused += 1
+                return None
             grant = yield cpu.acquire(1)
             yield cfg["svc_ms"] / 1000.0
             grant.release()
             self.finished += 1
-            out = network.send(self, collector, "Result")
+            via = nets.get(event.context["metadata"].get("via", "net")) or network
+            out = via.send(self, collector, "Result")
             out.context["created_at"] = event.context.get("created_at", self.now)
             out.context["metadata"]["user"] = event.context["metadata"].get("user")
             res = [out]
@@ -146,18 +236,27 @@ def build(cfg, seed):
             self.sent = 0
 
         def handle_event(self, event):
-            self.sent += 1
-            dst = apps[(self.sent + self.i) % len(apps)]
-            out = network.send(self, dst, "Request", payload={"user": f"user-{(self.sent * 7 + self.i) % 13}"})
-            out.context["created_at"] = self.now
-            return [out]
+            outs = []
+            for _ in range(burst):
+                self.sent += 1
+                dst = apps[(self.sent + self.i) % len(apps)]
+                via = "net2" if use_net2 and self.sent % cfg.get("net2_every", 2) == 0 else "net"
+                out = nets[via].send(self, dst, "Request",
+                                     payload={"user": f"user-{(self.sent * 7 + self.i) % 13}", "via": via})
+                out.context["created_at"] = self.now
+                outs.append(out)
+            return outs
 
     clients = [Client(i) for i in range(cfg["n_clients"])]
-    for c in clients:
+    for nm, nw in sorted(nets.items()):
+        if nw is None:
+            continue
+        for c in clients:
+            for a in apps:
+                nw.add_link(c, a, link(f"{nm}:{c.name}>{a.name}" if nm != "net" else f"{c.name}>{a.name}"))
         for a in apps:
-            network.add_link(c, a, link(f"{c.name}>{a.name}"))
-    for a in apps:
-        network.add_bidirectional_link(a, collector, link(f"{a.name}<>collector"))
+            nw.add_bidirectional_link(a, collector, link(f"{nm}:{a.name}<>collector" if nm != "net"
+                                                         else f"{a.name}<>collector"))
 
     schedule = FaultSchedule("faults")
     handles = []
@@ -170,67 +269,103 @@ def build(cfg, seed):
         elif k == "pause":
             fault = PauseNode(f["entity"], start=a, end=b)
         elif k == "partition":
-            fault = NetworkPartition(list(f["ga"]), list(f["gb"]), start=a, end=b, asymmetric=f["asym"])
+            fault = NetworkPartition(list(f["ga"]), list(f["gb"]), start=a, end=b, asymmetric=f["asym"],
+                                     network_name=f.get("net"))
         elif k == "latency":
-            fault = InjectLatency(f["link"][0], f["link"][1], extra_ms=f["extra_ms"], start=a, end=b)
+            fault = InjectLatency(f["link"][0], f["link"][1], extra_ms=f["extra_ms"], start=a, end=b,
+                                  network_name=f.get("net"))
         elif k == "loss":
             fault = InjectPacketLoss(f["link"][0], f["link"][1], loss_rate=f["rate_pct"] / 100.0, start=a, end=b,
-                                     network_name="net")
+                                     network_name=f.get("net", "net"))
         else:
             fault = ReduceCapacity("cpu", factor=f["factor_pct"] / 100.0, start=a, end=b)
-        handles.append((schedule.add(fault), f["cancel"]))
-    if cfg["random_partition"]:
+        handles.append((schedule.add(fault), f["cancel"], f.get("cancel_at")))
+    node_names = [e.name for e in [*clients, *apps, collector]]
+    if cfg.get("random_partition"):   # old cfg shape: one RandomPartition over all nodes
         rp = cfg["random_partition"]
-        schedule.add(RandomPartition(nodes=[e.name for e in [*clients, *apps, collector]], mtbf=rp["mtbf_ms"] / 1000.0,
+        schedule.add(RandomPartition(nodes=list(node_names), mtbf=rp["mtbf_ms"] / 1000.0,
                                      mttr=rp["mttr_ms"] / 1000.0, seed=sub_seed(seed, "random-partition")))
+    for i, rp in enumerate(cfg.get("random_partitions", [])):
+        # `seed=`: RandomPartition(seed=None) draws from a private OS-seeded Random (documented: "seed for
+        # reproducibility"), never from the module-level `random`
+        schedule.add(RandomPartition(nodes=node_names[-rp["n_nodes"]:], mtbf=rp["mtbf_ms"] / 1000.0,
+                                     mttr=rp["mttr_ms"] / 1000.0, seed=sub_seed(seed, "random-partition", i),
+                                     network_name=rp["net"]))
 
     sources = []
     for c in clients:
         mk = Source.poisson if cfg["poisson"] else Source.constant
         sources.append(mk(rate=cfg["rate"][c.i], target=c, event_type="Tick", name=f"src-{c.name}", stop_after=stop))
 
+    class Canceller(Entity):
+        """cancels a fault handle in the middle of the run (the handle's events already sit in the heap)"""
+
+        def __init__(self):
+            super().__init__("canceller")
+            self.done = []
+
+        def handle_event(self, event):
+            i = event.context["metadata"]["i"]
+            handles[i][0].cancel()
+            self.done.append(i)
+            return None
+
+    canceller = Canceller()
+    net_entities = [network] + ([net2] if net2 is not None else [])
+    if cfg.get("net2_first", False):
+        net_entities.reverse()
     sim = Simulation(end_time=T(end), sources=sources,
-                     entities=[*clients, *apps, collector, done, cpu, qsrv, network], fault_schedule=schedule)
+                     entities=[*clients, *apps, collector, done, cpu, qsrv, *net_entities, canceller],
+                     fault_schedule=schedule)
     # handles are cancelled before the run starts (test_fault_stats_tracking cancels before building the
     # Simulation; cancelling afterwards is the variant in which the events already exist)
-    for h, cancel in handles:
+    for i, (h, cancel, cancel_at) in enumerate(handles):
         if cancel:
             h.cancel()
+        if cancel_at is not None:
+            sim.schedule(Event(time=Instant.from_seconds(cancel_at / 1000.0), event_type="CancelFault",
+                               target=canceller, daemon=True, context={"metadata": {"i": i}}))
 
-    names = [e.name for e in [*clients, *apps, collector]]
-
-    def net_obs():
-        links = []
-        for c in clients:
+    def net_obs(nm, nw):
+        def read():
+            links = []
+            for c in clients:
+                for a in apps:
+                    links.append((c.name, a.name))
             for a in apps:
-                links.append((c.name, a.name))
-        for a in apps:
-            links += [(a.name, "collector"), ("collector", a.name)]
-        out = {"routed": network.events_routed, "no_route": network.events_dropped_no_route,
-               "partition_drops": network.events_dropped_partition,
-               "matrix": [dataclass_stats(m) for m in network.traffic_matrix()],
-               "still_partitioned": [[x, y] for x in names for y in names if x != y and network.is_partitioned(x, y)],
-               "links": []}
-        for s, d in links:
-            ln = network.get_link(s, d)
-            out["links"].append([s, d, ln.packet_loss_rate, ln.latency.get_latency(Instant.Epoch).to_seconds(),
-                                 ln.packets_sent, ln.packets_dropped])
-        return out
+                links += [(a.name, "collector"), ("collector", a.name)]
+            out = {"routed": nw.events_routed, "no_route": nw.events_dropped_no_route,
+                   "partition_drops": nw.events_dropped_partition,
+                   "matrix": [dataclass_stats(m) for m in nw.traffic_matrix()],
+                   "still_partitioned": [[x, y] for x in node_names for y in node_names
+                                         if x != y and nw.is_partitioned(x, y)],
+                   "links": []}
+            for s, d in links:
+                ln = nw.get_link(s, d)
+                out["links"].append([s, d, ln.packet_loss_rate, type(ln.latency).__name__,
+                                     ln.latency.get_latency(Instant.Epoch).to_seconds(),
+                                     ln.packets_sent, ln.packets_dropped, ln.bytes_transmitted])
+            return out
+        return read
 
     obs = {
         "faults": stats_of(schedule),
-        "handles": lambda: [h.cancelled for h, _ in handles],
-        "net": net_obs,
+        "handles": lambda: [h.cancelled for h, _, _ in handles],
+        "cancelled_midrun": lambda: list(canceller.done),
+        "net": net_obs("net", network),
         "cpu": lambda: {"capacity": cpu.capacity, "available": cpu.available, "waiters": cpu.waiters,
-                        "stats": dataclass_stats(cpu.stats)},
+                        "utilization": cpu.utilization, "stats": dataclass_stats(cpu.stats)},
         "collector": lambda: {"n": collector.events_received, "lat": collector.latency_stats()},
         "done": lambda: {"n": done.events_received, "lat": done.latency_stats()},
         "qsrv": stats_of(qsrv),
         "qsrv.x": lambda: {"depth": qsrv.depth, "acc": qsrv.stats_accepted, "drop": qsrv.stats_dropped,
                            "util": qsrv.utilization},
+        "sources": lambda: [[s.name, s.generated_count] for s in sources],
     }
+    if net2 is not None:
+        obs["net2"] = net_obs("net2", net2)
     for c in clients:
         obs[c.name] = (lambda c=c: c.sent)
     for a in apps:
-        obs[a.name] = (lambda a=a: {"received": a.received, "finished": a.finished})
+        obs[a.name] = (lambda a=a: {"received": a.received, "finished": a.finished, "refused": a.refused})
     return sim, obs
